@@ -9,12 +9,17 @@ CONSTANTS
   MaxClock = @@MAXCLOCK@@
   MaxHist = @@MAXHIST@@
   Shapes = @@SHAPES@@
+  CasSet = {FALSE}
   FixSets = {@@FIXES@@}
   Causes = {"peer", "cmd", "sweep", "kick"}
   KeepCreatedAt = FALSE
   UseRequestId = FALSE
+  IdxRenew = "checkSet"
+  RecRenew = "set"
   Lookups = @@LOOKUPS@@
   WritingLookup = FALSE
+  InFlight = @@INFLIGHT@@
+  ClientState = FALSE
   Emit = TRUE
   Only = "@@ONLY@@"
 INIT Init
